@@ -299,6 +299,25 @@ def _template_shard(item):
         cfg, diffs, text = failures[0]
         part["violations"].append({"payload": program_payload(src, cfg), "diffs": diffs,
                                    "what": "function template %d behaves differently" % i})
+        return part
+    # the template with falsy / negative / empty / non-ASCII defaults, arguments and return values
+    from ..gen import perturb
+    for mode in perturb.MODES:
+        v = perturb.perturb(src + "\n", mode)
+        if v is None:
+            continue
+        ov = run_code(v, "exec", wall=3)
+        if not ov["ok"]:
+            part["discarded"]["value-variant-original-raises"] += 1
+            continue
+        part["evaluations"] += 1
+        part["classes"]["template-value-variant:" + mode] += 1
+        status, failures, _ = check_program(v, env.ALL_CFGS, orig=ov)
+        if status == "fail":
+            cfg, diffs, text = failures[0]
+            part["violations"].append({"payload": program_payload(v, cfg), "diffs": diffs,
+                                       "what": "the %s-valued variant of function template %d behaves differently" % (mode, i)})
+            break
     return part
 
 
